@@ -260,26 +260,26 @@ CHECKS["C15"] = dict(
 
 # ---- additions made while strengthening the checks against independently seeded changes ----
 _EXTRA = {
-    "C14": " Family twin: layouts with two sensors 2^-10..2^-30 pitches apart (weights at a conditioning-aware tolerance, their total at 1e-9); family session: histories of requests on two live spatial objects (boundary as list / fresh array / one array overwritten in place, refused requests in between), the last request of every history judged on its own arguments. Session boundaries with the same bounding box and another shape; family outline: chamfered and closed-ring outlines, every start point and direction, translations up to 1e4 extents.",
-    "C01": " Windows of 32768/32769/40000 samples are judged with a sparse explicit-DFT reference (FFT length must cover the window); azimuth sets include a non-ascending one; FFT requests with a norm keyword, integer-typed centre frequencies and common factors of 1e-18/1e18 are included. Cases with three windows of different length in one call (longest first / middle / last; the reference tapers every window over its own length) are included. Windows sampled at 1/64 and 1/128 s (FFT bins exactly on window ends: a sample on the end of a closed window counts) and ordered pairs / triples of windows over {500, 32768, 40000} samples in one call are included.",
+    "C14": " Family twin: layouts with two sensors 2^-10..2^-30 pitches apart (weights at a conditioning-aware tolerance, their total at 1e-9); family session: histories of requests on two live spatial objects (boundary as list / fresh array / one array overwritten in place, refused requests in between), the last request of every history judged on its own arguments. Session boundaries with the same bounding box and another shape; family outline: chamfered and closed-ring outlines, every start point and direction, translations up to 1e4 extents. Root kind aperture: arrays shrunk by 2^-10..2^-17 inside the four boundaries (boundary 1.5e3..4e5 apertures), three scales, optionally one sensor 1e3/1e5 extents outside the boundary.",
+    "C01": " Windows of 32768/32769/40000 samples are judged with a sparse explicit-DFT reference (FFT length must cover the window); azimuth sets include a non-ascending one; FFT requests with a norm keyword, integer-typed centre frequencies and common factors of 1e-18/1e18 are included. Cases with three windows of different length in one call (longest first / middle / last; the reference tapers every window over its own length) are included. Windows sampled at 1/64 and 1/128 s (FFT bins exactly on window ends: a sample on the end of a closed window counts) and ordered pairs / triples of windows over {500, 32768, 40000} samples in one call are included. Record lists with two or three time steps in one call, every order of length 3-4 (grouping permutations that are 3- and 4-cycles included): each row against the reference of its own record.",
     "C02": " Integer and float32 spectra must give the float64 result; pairs of FFT grids with equal size but different spacing run inside one root (state carried between grids). Centre vectors with the same length and end points as the vector before them ('warp') are included. Exact ties are judged: a sample exactly on the end of a closed window (rectangular and Konno-Ohmachi kernels, decided in rational arithmetic) is inside it; family call-size: a stack repeated to 2^8..2^20 entries per call (row i must equal row i mod rows) and centre vectors repeated to 2^6..2^12 entries.",
     "C03": " Descending/unsorted centre-frequency sets and pool members scaled by 1e9/1e-9 are included. The 'alone' references are computed in processes without history (engine/pristine.py), so process-global state cannot make joint and alone runs wrong alike. A fourth time step 1/100.4 s (same whole sampling rate and sample counts as 0.01 s) and a fifth 5 ppm below 0.01 s (time steps are distinguished as floats, never by tolerance) are in the pool.",
     "C04": " Tiny (< 0.1 degree) re-orientations, step compositions, orient-modify-orient histories and non-ascending azimuth sets are included. The orientation target of preprocess is spelled with every real number type (int, float, np.int64, np.int32, np.float32, np.float64, 0-d array). Every recording is built with metadata carried over from a recording at another orientation. Family mixed: lists of recordings with unequal time steps (words over three time steps), the time-step option omitted or explicit, the settings omitted entirely - azimuthal == stack of single azimuths and the RotDpp bounds on such lists; nearly tied orientations (0.06 -> 0) in the preprocess family.",
     "C05": " Histories are also explored in touch mode (statistics read after every operation) with manual re-acceptance and compound mask edits; a window with exactly zero amplitude is included. Windows that differ by parts per million ('near' roots, rtol 1e-6) are included; every array an accessor returns is overwritten in place and every options dict passed is re-used by the harness before the state is judged (the caller owns them). Range updates whose peak options scipy refuses are in the menu (the object must stay as it was); the range the object has recorded is part of the canonical state. Every spelling of a distribution that an accessor accepts gives the numbers of the canonical spelling; the lognormal mean curve is judged where an accepted window holds an exact zero (geometric mean 0); a 1500-window record is explored in touch mode.",
     "C06": " Calls with find_peaks_kwargs={} (entry peak search takes the early return, earlier rejections persist) and 9-11-window lop-sided sets are included. The alias spelling 'log-normal' and rejections driven through one caller-owned range list (edited in place between calls) are in the menu; after every call the per-window peaks must be those of the range of that call. Range updates whose peak options are refused (they raise) are in the menu: the rejection that follows must not see them.",
-    "C07": " In-memory inputs, one-shot iterables and other containers for read()'s per-recording arguments, mixed-format lists sharing one options dict and non-builtin real numbers given once are included. Same-path histories (failed read, file rewritten, read again; content replaced) are explored per format. A family in which every format carries the same file extension (.dat/.txt/none; ordered pairs and triples of formats) is included. Per-recording orientation lists with None entries (all 2^m - 1 lists) and recordings whose traces differ in sampling rate (all orders: a refusal is accepted, a returned recording must carry every channel's own time step) are included.",
+    "C07": " In-memory inputs, one-shot iterables and other containers for read()'s per-recording arguments, mixed-format lists sharing one options dict and non-builtin real numbers given once are included. Same-path histories (failed read, file rewritten, read again; content replaced) are explored per format. A family in which every format carries the same file extension (.dat/.txt/none; ordered pairs and triples of formats) is included. Per-recording orientation lists with None entries (all 2^m - 1 lists) and recordings whose traces differ in sampling rate (all orders: a refusal is accepted, a returned recording must carry every channel's own time step) are included. PEER numbers spelled with two and four integer digits, and horizontal azimuth codes equal modulo 360 (360/0/000), which must be refused as a duplicated component.",
     "C08": " Two grids with equal length and end points are explored one after the other inside one root with limits in absolute Hz; touch mode. Amplitude transforms (ripple of 1e-6 on a level of 2, amplitudes of order 1e-9 and 1e12), range limits of every real number type and histories that re-use one caller-owned range list are included. Refused peak options (the object must stay as it was), limits of exactly zero, range updates given to one azimuth through the member object, every curve over {1,2,3}^7 as a window of a traditional result, and pairs of LIVE objects on grids with equal length and end points (each update applied to both, either order) are included. mean_curve_peak() of a diffuse-field object with the range omitted is judged against the documented default range.",
     "C09": " A numpy array inside a recording's meta and a near-equal time step (0.01 vs float32(0.01)) are included. Fresh-state references are computed in processes without history; centre frequencies are ndarrays or lists; non-default time-step policies are in the menu. An interleaved scenario is run in a process without history: the call; unrelated calls on other data (a 40000-sample window, a taper 0.4 % wider) and three legitimately refused calls on the caller's recordings; the same call again with the same and with a pristine settings object. Live histories (the same objects throughout, no copies: 20 owner's edits of a recording in place and by replacement between calls, an interleaved call with another taper), recordings of different length in one call and 300 recordings in one call are included.",
     "C11": " Touch mode, manual re-acceptance and compound mask edits (same total, other split), single-frequency curve sets, a finely spaced grid and zero-amplitude windows are included. 'Near' roots (ppm-scaled windows), the alias spelling 'log-normal', returned arrays overwritten in place, and a model of manual edits (only the addressed entry of the addressed azimuth may change) are included. Duplicate azimuth values, 0 together with 180, swaps of which window of ONE azimuth is rejected, and refused range updates are included. A root with 256 azimuths x 257 windows (azimuths x accepted windows > 2^16) is included.",
     "C12": " All four (distribution_mc, distribution_fn) pairs, kwargs that change the selected peak, rejections with a bounded range and non-increasing azimuth sets are included; touch mode. Azimuths a few hundredths of a degree apart, a two-peak set for which the peak options select the lower peak at the default range, and options dicts re-used by the caller are included. A rejection that is legitimately refused half-way through the azimuths (then written) is included. write() with the distributions omitted must produce the file of the documented defaults; the distributions remembered from the last rejection are part of the canonical state.",
-    "C10": " window_length_in_seconds=None (unsplit) and windows of more than two million sample intervals are included. Family history: unrelated objects are filtered with other filter orders, split and detrended first, and the windows are compared with those of a process without history; family mixed-dt: lists of recordings with time steps a, b, a. Family tiling-long (about 1200 windows per record, durations that are not exact in binary) and family orient (every relation between deployed heading and target, half turns included, judged with the independent rotation reference) are included.",
+    "C10": " window_length_in_seconds=None (unsplit) and windows of more than two million sample intervals are included. Family history: unrelated objects are filtered with other filter orders, split and detrended first, and the windows are compared with those of a process without history; family mixed-dt: lists of recordings with time steps a, b, a. Family tiling-long (about 1200 windows per record, durations that are not exact in binary) and family orient (every relation between deployed heading and target, half turns included, judged with the independent rotation reference) are included. Family reoriented: records whose current heading differs from the deployed one (re-oriented by the user or by an earlier preprocess on the same object) preprocessed back to the deployed heading, to the current one, by a whole turn, or without orientation; the heading is modelled by the harness.",
     "C17": " Amplitude scales 1e-9, 1e-12 and 1e9 are included (every tolerance is relative; the diffuse-field ratio must be scale invariant). Parts C/D: use / edit / use (and use / edit / use / edit / use) histories on ONE settings object for process() and preprocess(), edits by assignment, item assignment or load(), optionally a refused call in between; the last use is judged by the fresh-object oracles. Part E: 255..513 windows in one call with four energy profiles (Parseval, Welch mean of single-window PSDs, scale).",
     "C13": " Amplitude factor 1e-8 and window pairs with equal sample count but different time step are included. Amplitude factors 1e-20/1e20, lists of windows of different length (family 'unequal') and a manual rejection on one azimuth after the call (the other azimuths keep the selection) are included. Family history: every sequence of up to 3 (quick) / 4 (thorough) calls over 15 operations, some of them refused (too long STA/LTA, a too-short window at each list position, a non-existent component), on objects with fresh or pre-set masks: a refused call must leave the attached object's masks as they were. Family curves: attached objects holding curves without a peak (every assignment of peaked / monotone / flat curves to the windows, masks as hvsrpy leaves them).",
     "C15": " Loads into objects that already hold other (richer) content are checked for every class. Objects constructed from values that the caller, another settings object or a sibling still holds must not share them (family 'construct-from'). Sequences of length 1 and 0 are in the value menus; family inplace-edit: every list/dict/array reachable from an object (found by inspection, 'attrs' included) is edited in place with every operation of a per-type menu while bystander objects of all classes made before and after must not change.",
     "C16": " sigma_f = 0 and pairs of grids with equal length, end points and f0 sample (same explicit range, one process) are included. A peak of prominence 1e-7 (flank kind 'shelf') is included; verbose calls pass the range as a list, which must afterwards still hold what the caller wrote. Ranges given as (high, low), ranges whose limit is next to the peak, and a grid / standard-deviation curves that put the peaks of mean x sigma and mean / sigma one sample inside and outside either edge of the criterion-iv band are included. Roots whose first sample / shoulder ties the peak amplitude, flat tops across a band edge (any sample of the run is accepted as the peak), and search limits beyond the sampled band. Integer-valued curves handed over as int64/int32/int16/uint8 arrays must give the verdicts of the same values in float64.",
     "C18": " Touch mode: the recording is checkpointed to disk after every operation. Orientations of NumPy scalar types, returned time vectors shifted in place by the caller, and trims 1e5 time steps into records of 270000-400001 samples are included. The same TimeSeries object handed to the constructor for several components (all five partition patterns; such recordings are also search roots) and pairs of fresh objects trimmed back to back with identical arguments (lengths x time steps, both kinds) are included. The boundary sizes of the split window length (whole record, minus one sample, longer than the record, one interval) are included for both classes. Trim ends 5e-10 and 2e-12 (relative) beyond the last sample must be refused (only an end within 1e-13 of the last sample time is left undecided).",
     "C19": " Mixed --distribution_mc/--distribution_fn runs and two high sampling rates 5.9e-6 s apart (short windows) are included. A settings variant with a nested fft_settings dict is included; the quick file set mixes sampling rates that share one padded FFT length. PSD-style preprocessing settings files (differentiate, filter, explicit FFT length) are in the settings alphabet. Settings files with an empty fft_settings dict and with {'n': null}, and five spellings of the input names on the command line (each with its own reference) are included.",
-    "C20": " The default call draws the live object of the history, touch mode draws it after every operation, manual re-acceptance and compound mask edits are in the menu. Figures interrupted half-way (RuntimeError and KeyboardInterrupt injected inside the drawing), the meshes handed to contourf / plot_surface (every azimuth's row is that azimuth's curve; azimuths stored out of order) and same-azimuth swaps of the rejected window between two drawings of one object are included. An accepted window 30 times stronger than the others (negative -1 sigma curve), range updates with peak options, recordings with nan gaps and independent distributions in the azimuthal summary are included.",
+    "C20": " The default call draws the live object of the history, touch mode draws it after every operation, manual re-acceptance and compound mask edits are in the menu. Figures interrupted half-way (RuntimeError and KeyboardInterrupt injected inside the drawing), the meshes handed to contourf / plot_surface (every azimuth's row is that azimuth's curve; azimuths stored out of order) and same-azimuth swaps of the rejected window between two drawings of one object are included. An accepted window 30 times stronger than the others (negative -1 sigma curve), range updates with peak options, recordings with nan gaps and independent distributions in the azimuthal summary are included. Calls refused through the second argument (recordings or masks of the wrong length, the wrong kind of result) are made on the live object of every state and judged by the read-only oracle.",
 }
 for _k, _v in _EXTRA.items():
     CHECKS[_k]["text"] = CHECKS[_k]["text"] + _v
